@@ -264,6 +264,23 @@ def validate_trace(ctx, module, cfg, tracefile, *, timeout=600, name=None, deque
     return r
 
 
+def have_strace():
+    """strace present and allowed to attach (ptrace) to a child of ours?"""
+    global _STRACE
+    try:
+        return _STRACE
+    except NameError:
+        pass
+    try:
+        p = subprocess.Popen(["sleep", "2"])
+        r = subprocess.run(["strace", "-p", str(p.pid), "-e", "trace=none", "-o", "/dev/null"], timeout=5, capture_output=True)
+        _STRACE = r.returncode == 0 or b"attached" in r.stderr
+        p.kill()
+    except Exception:
+        _STRACE = False
+    return _STRACE
+
+
 def tlc_trace_file(ctx, module, cfgpath, tracefile, *, name, timeout=600, heap="4g"):
     """Searching trace validation (breadth-first, -workers 1, high-water mark of the trace index in TLC register 1)
     with a generated configuration; safe to call from several threads."""
